@@ -25,7 +25,9 @@ RULE = (
     "generated (tau, M, p_initial) - including the generating ones - against the harness's own call of the "
     "library's 80-node variable-pressure simulation; 'fit' cases run fit_production_pressure with the objective "
     "wrapped so that every evaluation is observed. Non-trivial = a schedule with >= 2 levels and (for fits) at "
-    "least one filtered row or a window. Distinct = hash of the case record."
+    "least one filtered row or a window. Production tables carry further columns (an integer one; in half of the filtered "
+    "cases a water column with gaps on producing days, in a quarter also a comment column of strings / None). "
+    "Distinct = hash of the case record."
 )
 ASSUMPTIONS = [
     "the harness re-simulates with the node count the objective is observed to use (80 on this tree; the fitting module's reservoir class is wrapped for one probe evaluation per case): a finer model is accepted, a coarser one than the anchored 80 nodes is a violation",
@@ -86,6 +88,9 @@ def strategy_(draw):
         # the Days column counts calendar days (gaps on days without a report) or is not sorted - it is documented as
         # informational when filtering re-indexes the productive days
         c["days_column"] = draw(st.sampled_from(["0..n-1", "0..n-1", "gapped", "offset"]))
+        # production exports carry more than the three documented columns (water, oil, comments), often with gaps on
+        # days that do have gas and pressure: such rows stay in the fit
+        c["extra_columns"] = draw(st.sampled_from(["int", "int", "nan-gaps", "strings-and-nan"]))
     return c
 
 
@@ -227,6 +232,13 @@ def check_case(case) -> Result:
         days_col = days + 400.0
     res.labels["days_column"] = case.get("days_column", "0..n-1") if case["filter"] else "0..n-1"
     prod = pd.DataFrame({"Days": days_col, "Gas": gas_col, "Pressure": pres_col, "Other": np.arange(n)})
+    extra = case.get("extra_columns", "int")
+    if extra in ("nan-gaps", "strings-and-nan"):
+        water = np.where(np.arange(n) % 3 == 1, np.nan, 1.0 + np.arange(n) % 5)
+        prod.insert(0, "Water", water)  # not reported on every third day
+        if extra == "strings-and-nan":
+            prod["Comment"] = [None if k % 4 else "shut in for workover" for k in range(n)]
+    res.labels["extra_columns"] = extra
     kind = case.get("index", "range")
     if kind == "repeated":
         prod.index = np.arange(n) % case["index_period"]
